@@ -454,6 +454,23 @@ def behaviour(x):
                                        f"{again.protocol_version!r}, a fresh node gets {fresh.protocol_version!r}")
     except Exception as exc:  # noqa: BLE001
         out["node_history"] = "raised " + type(exc).__name__
+    # the version a node presents reaches the node object whichever of the two node types it presents as
+    # (an ordinary node, sub-type 17, or a repeater, sub-type 18)
+    if isinstance(x, str) and x and ";" not in x and "\n" not in x and x == x.strip():
+        try:
+            seen = {}
+            for nid, ptype in ((3, 17), (4, 18)):
+                gw.logic(f"{nid};255;0;0;{ptype};{x}\n")
+                seen[ptype] = gw.sensors[nid].protocol_version if nid in gw.sensors else "not registered"
+            fresh = Sensor(1)
+            fresh.protocol_version = x
+            registered = {v for v in seen.values() if v != "not registered"}
+            if len(set(seen.values())) != 1 or (registered and registered != {fresh.protocol_version}):
+                out["presented_version"] = (f"node presenting as type 17 / 18 with this version is recorded as "
+                                            f"{seen[17]!r} / {seen[18]!r} (a node object given the value: "
+                                            f"{fresh.protocol_version!r})")
+        except Exception as exc:  # noqa: BLE001
+            out["presented_version"] = "raised " + type(exc).__name__
     try:
         node = Sensor(1)
         node.protocol_version = x
